@@ -79,7 +79,8 @@ MIN_EVALS = {'quick': {'energy==oracle': 15000, 'cum==oracle': 8800, 'cum==cumsu
                        'purity.record,travel-times-unchanged': 28000, 'purity.trim-arguments-unchanged': 21000,
                        'purity.values,shifts-unchanged': 18000, 'purity.shared-objects-unchanged-across-calls': 4800,
                        'shared-reduction==fresh-copies': 4800, 'first-result-unchanged-after-second-call': 600,
-                       'history.repeat==first': 250, 'history.twin==object': 250, 'history.sequence-completed': 160},
+                       'history.repeat==first': 250, 'history.twin==object': 250, 'history.sequence-completed': 160, 'join_sig==padded+-shifted(int(t/dt))': 3600,
+                       'join_sig==join_values(int(t/dt))': 3600, 'purity.join_sig-arguments-unchanged': 3600},
              'thorough': {'energy==oracle': 270000, 'cum==oracle': 158400, 'cum==cumsum|d(observed energy)|': 158400,
                           'cum.non-decreasing': 158400, 'cum.zero@tau0-nodal': 21600,
                           'cum.scales-alpha^2(pow2,exact)': 14400, 'cum.scales-alpha^2(tol)': 14400,
@@ -90,7 +91,8 @@ MIN_EVALS = {'quick': {'energy==oracle': 15000, 'cum==oracle': 8800, 'cum==cumsu
                           'purity.trim-arguments-unchanged': 378000, 'purity.values,shifts-unchanged': 324000,
                           'purity.shared-objects-unchanged-across-calls': 86400, 'shared-reduction==fresh-copies': 86400,
                           'first-result-unchanged-after-second-call': 10800, 'history.repeat==first': 4500,
-                          'history.twin==object': 4500, 'history.sequence-completed': 2880}}
+                          'history.twin==object': 4500, 'history.sequence-completed': 2880, 'join_sig==padded+-shifted(int(t/dt))': 60000,
+                          'join_sig==join_values(int(t/dt))': 60000, 'purity.join_sig-arguments-unchanged': 60000}}
 CTX = None
 _INNER = {'active': False, 'energy': None}
 
@@ -655,19 +657,31 @@ def _post_join_sig(args, kwargs, result, pre):
                   % (type(sig).__name__, vals.size, dt, ts.tolist()[:8], p['jtype'], msg))
     else:
         ctx.observe('join_sig_w_time_shift: too many ambiguous conversions (definition clause skipped)')
-    # (b) relation between the two entry points
+    # (b) relation between the two entry points: the result is what join_values_w_shifts gives for int(t/dt) as the library
+    #     evaluates it; on a knife edge (quotient a few ulps below an integer) any admissible conversion may have been used
     try:
-        with attach.paused():
-            sh = np.array(pre['ts'] / pre['dt'], dtype=int)
-            other = eqsig.fns.time_shift.join_values_w_shifts(np.array(pre['values']), sh, jtype=p['jtype'])
+        literal = tuple(int(v) for v in np.array(pre['ts'] / pre['dt'], dtype=int).tolist())
     except Exception as e:
-        ctx.observe('join_sig_w_time_shift: join_values_w_shifts on int(t/dt) raised %s (relation not evaluated)' % type(e).__name__)
+        ctx.observe('join_sig_w_time_shift: int(t/dt) could not be evaluated (%s; relation not evaluated)' % type(e).__name__)
         return
-    other = np.asarray(other)
-    ctx.check(got.shape == other.shape and bool(np.array_equal(got, other)), 'join_sig==join_values(int(t/dt))',
-              lambda: _wit_join_sig(p, pre, got=got),
+    cands = [literal]
+    if 1 < n_alt <= 64:
+        cands += [c for c in itertools.product(*opts) if c != literal]
+    same = False
+    for cand in cands:
+        try:
+            with attach.paused():
+                other = np.asarray(eqsig.fns.time_shift.join_values_w_shifts(np.array(pre['values']), np.array(cand, dtype=int),
+                                                                             jtype=p['jtype']))
+        except Exception as e:
+            ctx.observe('join_sig_w_time_shift: join_values_w_shifts on int(t/dt) raised %s' % type(e).__name__)
+            continue
+        if got.shape == other.shape and bool(np.array_equal(got, other)):
+            same = True
+            break
+    ctx.check(same, 'join_sig==join_values(int(t/dt))', lambda: _wit_join_sig(p, pre, got=got),
               'join_sig_w_time_shift(..., %r) differs from join_values_w_shifts(values, int(t/dt)=%s, jtype=%r)'
-              % (p['jtype'], sh.tolist()[:8], p['jtype']))
+              % (p['jtype'], list(literal)[:8], p['jtype']))
 
 
 def install(ctx):
